@@ -160,6 +160,11 @@ class MafRecord(MutableMapping, LocatableByAllele):
         elif column.column_index is None:
             # set the column index to the next column
             column.column_index = len(self.__columns_list)
+        # the slots up to the column's index are padded with None.  Building the
+        # padding is the one step that can fail once the checks below have
+        # passed (an index too large to pad up to), so it is built before the
+        # record is touched: a failed call leaves the record unchanged
+        padding = [None] * max(0, column.column_index + 1 - len(self.__columns_list))
         # reject, before the record is touched, an index that cannot hold
         # this column: a negative index, or one whose slot holds a column
         # with a different name
@@ -176,8 +181,7 @@ class MafRecord(MutableMapping, LocatableByAllele):
 
         # extend the list if the index is out of range
         if len(self) <= column.column_index:
-            num_more = column.column_index - len(self) + 1
-            self.__columns_list.extend([None] * num_more)
+            self.__columns_list.extend(padding)
         # Developer Note: due to padding, the number of items in the dictionary
         # may be less than the number of items in the list.  Use validate to
         # catch this later.
